@@ -150,6 +150,11 @@ def pytype(v):
             return str
     if type(v).__module__ == "pyvc.tokstr" and type(v).__name__ in ("Atom", "TokStr"):
         return str
+    if type(v).__module__ == "pyvc.pbmodel":
+        if type(v).__name__ == "PMsg":
+            return v.desc._concrete_class
+        if type(v).__name__ == "PBytes":
+            return bytes
     return type(v)
 
 
